@@ -17,11 +17,12 @@ EXPLANATION = (
     "async path and every return of its inner validate is preceded by validation; (R4) check_io forwards its option "
     "tuple to both check_input and check_output in their parameter order; (R5) check_types validates inputs before "
     "the call, returns the checked output, and its partial re-application forwards every option. (R6) inside check_types' argument handling, a pass-through `return arg` without validation is never reached for None under a non-Optional annotation; (R7) coroutine detection (inspect.iscoroutinefunction) is applied to the innermost function through _unwrap_fn. " 
+    " (R8) definite assignment: no function of pandera/decorators.py reads a local that a branch-only path from its entry leaves unassigned (CFG may-analysis, optimistic about try bodies and loop bodies, correlated guards pruned, non-empty local accumulators accepted as witnesses) - an UnboundLocalError there would escape the decorated call. " 
     "NOT decided: "
     "argument binding over all signature shapes (inspect.signature semantics), from_format/to_format conversions."
 )
 LEVEL_RULE = "one obligation per validate call site / obj_getter branch / wrapper / forwarding call in decorators.py"
-FLOORS = {"R1": 7, "R2": 3, "R3": 4, "R4": 2, "R5": 5, "R6": 2, "R7": 2}
+FLOORS = {"R1": 7, "R2": 3, "R3": 4, "R4": 2, "R5": 5, "R6": 2, "R7": 2, "R8": 1}
 
 DEC = "pandera/decorators.py"
 OPTS = ["head", "tail", "sample", "random_state", "lazy", "inplace"]
@@ -102,6 +103,8 @@ def _validate_sites(f):
 
 
 def run(ctx):
+    from ..defassign import check_modules
+    check_modules(ctx, "R8", ('pandera/decorators.py',), "escapes the decorated call instead of the SchemaError(s)")
     ix = ctx.ix
     m = ix.module(DEC)
     funcs = {f.qual: f for f in m.all_functions}
